@@ -858,6 +858,9 @@ def opOfStr (t : String) : Option Op :=
       | "du" => some (.dupTo e)
       | "rp" => some (.replyPartialAbort e)
       | "x" => some (.abort e)
+      -- the response time-out of e's worker fires: for the transport the same as a read that fails (the
+      -- connection is closed and never pooled); the server stays, which nothing can observe afterwards
+      | "to" => some (.abort e)
       | _ => none
 
 def opExch : Op → Nat
